@@ -737,6 +737,36 @@ class VAMTransmissionManagement:
             }
             self.last_lf_vam_time = now
 
+    @staticmethod
+    def _to_asn1_cluster_information(container: dict) -> dict:
+        """Return *container* in the representation expected by the ASN.1 codec.
+
+        ``asn1tools`` represents a CHOICE value as a ``(name, value)`` tuple and
+        a BIT STRING as ``(bytes, number_of_bits)``.  The clustering manager
+        reports the bounding-box shape as ``{name: value}`` and the cluster
+        profiles as a single byte, which the codec rejects.
+
+        Parameters
+        ----------
+        container:
+            ``VruClusterInformationContainer`` as returned by
+            :meth:`~.vru_clustering.VBSClusteringManager.get_cluster_information_container`.
+
+        Returns
+        -------
+        dict
+            A copy of *container* that can be encoded.
+        """
+        info = dict(container["vruClusterInformation"])
+        shape = info.get("clusterBoundingBoxShape")
+        if isinstance(shape, dict) and len(shape) == 1:
+            info["clusterBoundingBoxShape"] = next(iter(shape.items()))
+        profiles = info.get("clusterProfiles")
+        if isinstance(profiles, (bytes, bytearray)):
+            # VruClusterProfiles ::= BIT STRING (SIZE(4))
+            info["clusterProfiles"] = (bytes(profiles), 4)
+        return {"vruClusterInformation": info}
+
     def send_next_vam(self, vam: VAMMessage) -> None:
         """Encode and send *vam* via the BTP router.
 
@@ -757,7 +787,9 @@ class VAMTransmissionManagement:
         if self.clustering_manager is not None:
             cluster_info = self.clustering_manager.get_cluster_information_container()
             if cluster_info is not None:
-                params["vruClusterInformationContainer"] = cluster_info
+                params["vruClusterInformationContainer"] = (
+                    self._to_asn1_cluster_information(cluster_info)
+                )
             cluster_op = self.clustering_manager.get_cluster_operation_container()
             if cluster_op is not None:
                 params["vruClusterOperationContainer"] = cluster_op
